@@ -123,6 +123,17 @@ CLAIMED = {
         note="trusted: the frame analysis is syntactic (aliases created by library calls or via fresh containers holding old objects are not tracked); callee effects come from the sidecar contracts; "
         "memo writes (_dtype/_ftype) are permitted; mutation inside polars / SQLAlchemy objects is not decided",
     ),
+    "C08": dict(
+        text="(proof) LIMIT/OFFSET composition of consecutive slice_head for symbolic limits/offsets (rows [O+k, O+k+min(n, max(L-k,0)))). (bounded: abstract clause states x verbs on width<=3 "
+        "tables with symbolic names) for 36 abstract SELECT states (LIMIT, grouped/ungrouped aggregation, WHERE/HAVING, ORDER BY, window column, pending group_by) and ~18 verb variants, the real "
+        "verb function, Cache.requires_subquery / check_subquery and SqlImpl.compile_ast are executed: accepted => the placement oracle `fits` (SQL evaluation order) holds; the Cache clause "
+        "state stays coupled with the Query state (J6); the never-needs-it fragment is never refused; Polars never raises SubqueryError; with alias() below, a refused verb is accepted and "
+        "compiles through the subquery with the right column list. Disagreements with the oracle are replayed natively Polars vs SQLite before they count.",
+        design_ref="DESIGN.md §5.8",
+        technique="symbolic execution of the real verb/requires_subquery/compile functions over enumerated abstract clause states + z3; oracle from SQL evaluation order",
+        note="trusted: pdtv + z3; the placement oracle (pdtv/spec/clause_model.py); SQL engines follow the standard evaluation order; bound: abstract state enumeration on small tables; "
+        "join / union operand placement not yet covered",
+    ),
 }
 
 NOT_YET = "check not built yet (engine under construction); will be claimed as soon as its obligations discharge"
